@@ -198,6 +198,24 @@ theorem ci_sound_with_repetitions (cfg : Config) (hp : RepPrintNA cfg) (hci : cf
   rw [this]
   exact docAtoms_fold cfg _ _ (stored_matches_original env w)
 
+/-- the same in verbose mode (`-i -r -x`): whenever `RegExp::from` returns, every non-empty original test case is matched under `(?ix)` -/
+theorem ci_sound_with_repetitions_verbose (cfg : Config) (hp : RepVerbose cfg) (hci : cfg.ci = true) (env : Env) (ws : List Str)
+    (st : Stages) (h : regExpFrom cfg env ws = .ok st) (hseg : ∀ w ∈ lowerCases env ws, SegOK env w)
+    (hlen : ∀ w ∈ lowerCases env ws, (clusterOfPieces (env.segOf w)).length ≤ 1000)
+    (w : Str) (hw : w ∈ ws) (hne : w ≠ []) (hsc : ∀ c ∈ w, Scalar c) :
+    ∃ P, Spec.parse (fmtRegExp cfg st.finalAst) = some (⟨true, true⟩, P) ∧ Spec.fullMatch true P w = true := by
+  have hlen : ∀ w ∈ lowerCases env ws, (subPieces (env.segOf w)).length ≤ 1000 := fun w hw => by
+    have := hlen w hw; rwa [clusterOfPieces_eq, List.length_map] at this
+  have hst : storedCases cfg env ws = lowerCases env ws := by simp [storedCases, hci]
+  have := rep_end_to_end_verbose cfg hp env ws st h (by rw [hst]; exact hseg) (by rw [hst]; exact hlen) (lowerOne env w)
+    (by rw [hst]; exact List.mem_map.mpr ⟨w, hw, rfl⟩) (stored_ne_nil env w hne) w hsc
+  rw [hci] at this
+  apply this
+  have : ∀ t : Str, t.map (convAtom cfg) = t.map (Props.C03.docAtom cfg) :=
+    fun t => List.map_congr_left (fun c _ => Props.C03.convAtom_documented cfg c)
+  rw [this]
+  exact docAtoms_fold cfg _ _ (stored_matches_original env w)
+
 example : RepPrintNA { rep := true, ci := true, word := true, noStart := true, noEnd := true } := ⟨rfl, by decide, rfl, rfl, rfl⟩
 
 /-- the case-insensitive pattern accepts nothing of another length than a stored test case -/
